@@ -1,6 +1,6 @@
 """C07 — DNS questions and answers are routed by the first matching DNS rule."""
-import json, os
-from verifkit import read_lines, VERIF
+import collections, json, os, subprocess
+from verifkit import read_lines, VERIF, LEAN
 
 REQUIRED = ["DaeVerif.C07.Props." + n for n in (
     "builder_accepts_wellformed",
@@ -12,6 +12,8 @@ REQUIRED = ["DaeVerif.C07.Props." + n for n in (
     "response_match_empty_name",
     "response_select_is_first_match",
     "response_addresses",
+    "question_follows_first_matching_request_rule",
+    "answer_follows_first_matching_response_rule",
     "reject_beats_cache",
     "cache_hit_asks_nobody",
     "question_goes_to_selected_upstream",
@@ -24,13 +26,21 @@ REQUIRED = ["DaeVerif.C07.Props." + n for n in (
 
 
 def run(ctx):
+    ctx.trusted += [
+        "domain matcher internals (succinct trie, Aho-Corasick): modelled by their documented meaning (full / suffix / keyword on ToLower(TrimSuffix(name,'.'))), tied at API level through Match; regex matching is an oracle (Go regexp) — C11's subject",
+        "pkg/trie CIDR trie: modelled as numeric containment in the IPv4-mapped space (proved equal to the trie query in C12)",
+        "the rule optimizers of dns.New (MergeAndSort, Deduplicate): not modelled; their output is compared decision-by-decision with the unoptimized program on every generated question/answer (C04 proves them)",
+        "the response cache is modelled as a key → records map of fresh entries (expiry, stale serving, LRU are C08's subject); upstream transports are fake forwarders",
+        "miekg/dns Pack/Unpack/CanonicalName; names are ASCII without backslash escapes",
+    ]
     ctx.prove(["DaeVerif.C07.Props"], ["DaeVerif.C07.Props"], ["DaeVerif/C07/*.lean"], extra_targets=["c07drv"])
     ctx.required_theorems(REQUIRED)
 
-    evaluations = 0
+    state = {"evaluations": 0}
     distinct = set()
     samples = []
     dist = {}
+    classes = collections.Counter()
 
     def gen_for(pkgname):
         # the shared generator template, instantiated for the package it is injected into
@@ -39,8 +49,30 @@ def run(ctx):
         open(dst, "w").write(src.replace("package C07PKG", "package " + pkgname, 1))
         return dst
 
+    def context_of(lines, ln):
+        # the configuration line(s) the failing question belongs to
+        ctxl = []
+        for want in (("req", "cfg"), ("resp",)):
+            for i in range(min(ln, len(lines)) - 1, -1, -1):
+                if lines[i].split(" ", 1)[0] in want:
+                    ctxl.append(lines[i])
+                    break
+        return ctxl
+
+    def explain(ops):
+        # coverage only: the driver classifies every op (which rule position decided, route taken,
+        # cached family present, number of upstream queries)
+        binp = os.path.join(LEAN, ".lake", "build", "bin", "c07drv")
+        try:
+            p = subprocess.run([binp], input=b"explain\n" + open(ops, "rb").read(), stdout=subprocess.PIPE,
+                               stderr=subprocess.DEVNULL, timeout=1200)
+            for l in p.stdout.decode("utf-8", "replace").split("\n"):
+                if l.startswith(("rq ", "rs ", "ask ")):
+                    classes[l] += 1
+        except Exception as e:  # coverage is best effort
+            ctx.log.write(f"explain failed: {e}\n")
+
     def tie(pkg, files, outname, test, stream):
-        nonlocal evaluations
         binp = ctx.go_test_build(pkg, files + [gen_for(os.path.basename(pkg))], outname)
         if not binp:
             return False
@@ -52,33 +84,29 @@ def run(ctx):
         if not ctx.driver("c07drv", ops, model):
             ctx.proof_failures.append("model driver c07drv failed to run on " + stream)
         mism = ctx.diff_streams(ops, impl, model, stream)
+        ol = read_lines(ops)
         for ln, op, im, mo in mism[:8]:
             ctx.report(f"implementation differs from proved model at {stream} line {ln}: impl `{im[:200]}` model `{mo[:200]}`",
                        {"stream": stream, "line": ln, "op": op, "impl": im, "model": mo,
-                        "context": context_of(ops, ln),
+                        "configuration": context_of(ol, ln),
                         "replay": "VERIF_SEED=%d ./check C07 %s" % (ctx.seed, ctx.tier)})
-        ol = read_lines(ops)
-        evaluations += len(ol)
-        for op, mo in zip(ol, read_lines(model)):
+        state["evaluations"] += len(ol)
+        for op, im, mo in zip(ol, read_lines(impl), read_lines(model)):
             k = op.split(" ", 1)[0]
             if k in ("rq", "rs", "ask"):
                 distinct.add(op)
             if "MODEL-SPLIT" in mo:
                 ctx.proof_failures.append("driver: scan and first-match specification disagree on " + op[:300])
+            if "optimized-chain:" in im:
+                ctx.report("the production optimizer chain of dns.New changes a routing decision: " + im,
+                           {"stream": stream, "op": op, "impl": im, "configuration": context_of(ol, ol.index(op) + 1)})
+            if im.startswith("crash:") or " wrong-id" in im:
+                ctx.report("real code misbehaved: " + im[:300], {"stream": stream, "op": op, "impl": im})
         st = json.load(open(os.path.join(ctx.out, stream + ".stats.json")))
         dist[stream] = st["counters"]
-        samples.extend(st["samples"][:4])
+        samples.extend(st["samples"][:5])
+        explain(ops)
         return True
-
-    def context_of(ops, ln):
-        # the configuration line the failing question belongs to
-        lines = read_lines(ops)
-        ctxl = []
-        for want in (("req", "cfg"), ("resp", "cfg")):
-            for i in range(min(ln, len(lines)) - 1, -1, -1):
-                if lines[i].split(" ", 1)[0] in want:
-                    ctxl.append(lines[i]); break
-        return ctxl
 
     ok = tie("component/dns", ["component/dns/c07_test.go"], "c07m", "TestVerifC07Matchers", "c07m")
     ok = ok and tie("control", ["control/c07_test.go"], "c07c", "TestVerifC07Controller", "c07c")
@@ -86,4 +114,15 @@ def run(ctx):
         return 2
     ctx.samples = samples
     ctx.cov["input_distribution"] = dist
-    return ctx.finish(rule="", evaluations=evaluations, distinct=len(distinct))
+    ctx.cov["decision_classes"] = dict(sorted(classes.items(), key=lambda kv: -kv[1])[:80])
+    ctx.assumptions = [
+        "rule lists, questions, answers and upstream behaviours are generated (seeded): 0..7 rules quick / 0..12 thorough per list (4 % long lists of up to 42 / 72), 1..3 conditions per rule, 1..6 parameters per condition, 0..8 upstreams",
+        "question names are ASCII from ValidDomainChars plus upper case, without '^'; the controller harness only sends fully-qualified names (as they come off the wire)",
+        "geosite/geoip parameters (dat files) are not generated",
+    ]
+    return ctx.finish(
+        rule="ops = req/resp (one compiled rule list: the dump of the real matches array and domain-set table is compared "
+             "with the model's), rq/rs (one question / one answer through the real Match, plain and with dns.New's "
+             "optimizer chain), cfg, ask (one client message through the real DnsController with fake upstreams: upstream "
+             "queries in order, reply, cache contents afterwards). distinct_nontrivial = distinct rq/rs/ask lines",
+        evaluations=state["evaluations"], distinct=len(distinct))
